@@ -15,7 +15,7 @@ theorem invB_fstep {P : Project} {s s' : State} {t : Tid} (inv2 : Inv2 s) (inv :
     InvB P s' := by
   have ⟨b1, b2, b3⟩ := inv
   have ⟨j1,j2,j3,j4,j5,j6,j7,j8,j9⟩ := inv2
-  cases st <;> constructor <;> simp only [setPc, publish, upd] at * <;> first | grind | skip
+  cases st <;> constructor <;> simp only [setPc, publish, goSleep, upd] at * <;> first | grind | skip
   case load.lower d hpc =>
     intro t1 f rest g hs hg
     by_cases ht : t1 = t
